@@ -147,6 +147,19 @@ int p_c14(void)
 		}
 		unit++;
 	}
+	/* the generated tables once more after the codec has been used (codes created, encoded, decoded from every mix of packets
+	 * including the k sources themselves): nothing the codec does may write into them */
+	rep_unit(unit);
+	if (rep_unit_mine(unit)) {
+		unsigned nl, ne, ni, mr, mc;
+		tu_rs28_init();
+		unsigned bad = 0; for (unsigned q = 0; q < 4; q++) bad += tu_rs28_activity((unsigned)g_run.seed + q);
+		if (rep_case("low-level activity on the generated tables")) { if (bad) rep_viol("tables-in-use:rs28:low-level-decode", "%u decodes through of_rs_decode did not return the source packets", bad); rep_case_done(1, 0, 1); }
+		const int *lg = tu_rs28_log(&nl); const unsigned char *ex = tu_rs28_exp(&ne);
+		const unsigned char *iv = tu_rs28_inv(&ni); const unsigned char *mu = tu_rs28_mul(&mr, &mc);
+		check_set(8, "of_rs_gf_after_use", lg, NULL, nl, ex, ne, iv, ni, mu, mr, mc);
+	}
+	unit++;
 	rep_unit(unit);
 	if (rep_unit_mine(unit)) {
 		rng_t r = rng_make(g_run.seed, 1400, 0);
